@@ -4,7 +4,7 @@ import json
 from harness import core
 from harness.core import cb, cl, cn, cp, cz
 
-VERSIONS = ['0.9', '1.0', '1.1', '2.0']
+VERSIONS = ['0.9', '0.10', '1.0', '1.1', '2.0']   # in PEP 440 order (0.10 is newer than 0.9)
 RANK = {v: i for i, v in enumerate(VERSIONS)}
 
 
@@ -32,6 +32,15 @@ class C05(core.Prop):
             {'history': [['publish', '1.0'], ['dump', '1.0', 1], ['dump', '1.0', 2], ['commit', '1.0', [1, 2]], ['publish', '0.9'],
                          ['publish', '1.0'], ['dump', '1.0', 3], ['commit', '1.0', [3]], ['publish', '1.1'], ['dump', '1.1', 4], ['commit', '1.1', [4]]],
              'crash': True},
+            # more than nine generations of one release and releases crossing 0.9 -> 0.10 (numeric, not textual, order)
+            {'history': [['publish', '0.9']] + [x for k in range(1, 12) for x in (['dump', '0.9', k], ['commit', '0.9', [k]])]
+                        + [['publish', '0.10'], ['publish', '0.9'], ['dump', '0.10', 20], ['commit', '0.10', [20]]],
+             'crash': False},
+            # a long-lived writer: a commit that fails (a state was never staged), its retry, and further commits
+            {'history': [['publish', '1.0'], ['dump', '1.0', 1], ['commit', '1.0', [1]], ['dump', '1.0', 2], ['commit', '1.0', [2, 3]],
+                         ['dump', '1.0', 2], ['dump', '1.0', 3], ['commit', '1.0', [2, 3]], ['dump', '1.0', 4], ['commit', '1.0', [4]], ['publish', '1.1'],
+                         ['dump', '1.1', 5], ['commit', '1.1', [5]]],
+             'crash': False, 'long_lived': True},
         ]
 
     def cases(self, rng, tier):
@@ -55,7 +64,17 @@ class C05(core.Prop):
                         history.append(['dump', rel, sid])
                     rng.shuffle(ids)
                     history.append(['commit', rel, ids])
-            out.append({'history': history, 'crash': i % 4 == 0})
+            case = {'history': history, 'crash': i % 4 == 0}
+            if i % 4 == 1:
+                # the same kind of history through one long-lived writer process, with failing commits (an unstaged state) mixed in
+                hist = []
+                for a in history:
+                    if a[0] == 'commit' and a[2] and rng.random() < 0.35:
+                        hist.append(['commit', a[1], a[2] + [900 + len(hist)]])   # refers to a state that was never staged
+                        hist += [['dump', a[1], x] for x in a[2]]                 # ... so everything is staged again for the retry
+                    hist.append(a)
+                case = {'history': hist, 'crash': False, 'long_lived': True}
+            out.append(case)
         return out
 
     def run_impl(self, cases):
@@ -77,11 +96,16 @@ class C05(core.Prop):
         # per release: dumps / commits -> listing
         final = obs['steps'][-1]['after'].get('prj', {}) if obs['steps'] else {}
         for rel in existing:
-            actions = []
+            actions, have = [], set()
             for action in case['history']:
                 if action[0] == 'dump' and action[1] == rel:
                     actions.append(f'(ADump {cn(action[2])})')
+                    have.add(action[2])
                 elif action[0] == 'commit' and action[1] == rel:
+                    if not set(action[2]) <= have:
+                        have -= set(action[2])
+                        continue                     # refused commit (unstaged state): not an action of the model
+                    have -= set(action[2])
                     actions.append(f"(ACommit {cl([cn(s) for s in action[2]], 'nat')})")
             gens = final.get(rel, {}).get('generations', {})
             listing = []
@@ -96,7 +120,7 @@ class C05(core.Prop):
     def oracle(self, case, obs):
         if 'error' in obs:
             return f"driver: {obs['error']}"
-        released, gens = [], {}
+        released, gens, staged = [], {}, {}
         for k, (action, step) in enumerate(zip(case['history'], obs['steps'])):
             before, after = step['before'], step['after']
             # crash consistency
@@ -117,8 +141,19 @@ class C05(core.Prop):
                     gens[v] = []
                 if not step['ok'] and after != before:
                     return f'action {k}: a refused release changed the registry'
+            elif action[0] == 'dump':
+                staged.setdefault(action[1], set()).add(action[2])
             elif action[0] == 'commit':
                 rel = action[1]
+                if not set(action[2]) <= staged.get(rel, set()):
+                    # a state of the tag was never staged: the commit must fail and change nothing a reader can see
+                    if step['ok']:
+                        return f'action {k}: commit {action} succeeded although a state was never staged'
+                    if after != before:
+                        return f'action {k}: a failed commit changed what readers see: {json.dumps(after)[:300]}'
+                    staged.setdefault(rel, set()).difference_update(action[2])   # what it had picked up must be staged again
+                    continue
+                staged.setdefault(rel, set()).difference_update(action[2])
                 gens[rel].append(action[2])
                 got = after.get('prj', {}).get(rel, {}).get('generations', {})
                 want = {str(i + 1): {'states': [[s, f'state {s}'] for s in ids]} for i, ids in enumerate(gens[rel])}
